@@ -20,7 +20,7 @@ Definition py_or (a b : Z) : Z := if a =? 0 then b else a.
 Definition getitem (t : list Z) (i : Z) : option Z :=
   let n := Z.of_nat (List.length t) in
   if i <? 0 then (if i + n <? 0 then None else nth_error t (Z.to_nat (i + n)))
-  else nth_error t (Z.to_nat i).
+  else if i <? n then nth_error t (Z.to_nat i) else None.
 
 Fixpoint map_opt {A B : Type} (f : A -> option B) (l : list A) : option (list B) :=
   match l with
